@@ -627,7 +627,7 @@ func main() {
 		limit  string                                                                // --plugin-time-limit value ("" = default)
 		expect func(out string, r result, tree map[string]string, rec string) string // "" = as expected
 	}
-	fails := func(needle string) func(string, result, map[string]string, string) string {
+	fails := func(needles ...string) func(string, result, map[string]string, string) string {
 		return func(out string, r result, tree map[string]string, rec string) string {
 			switch {
 			case r.hung:
@@ -636,8 +636,11 @@ func main() {
 				return "thriftgo exits 0"
 			case crashed(r.out):
 				return "thriftgo dies with a Go trace: " + tail(r.out)
-			case needle != "" && !strings.Contains(r.out, needle):
-				return fmt.Sprintf("the message %q is not shown: %s", needle, tail(r.out))
+			}
+			for _, needle := range needles {
+				if needle != "" && !strings.Contains(r.out, needle) {
+					return fmt.Sprintf("the message %q is not shown: %s", needle, tail(r.out))
+				}
 			}
 			return ""
 		}
@@ -769,11 +772,15 @@ func main() {
 		{name: "stderr-on-success", sc: func(o string) script { return script{Truncate: -1, Stderr: "note-on-stderr\n"} }, expect: sameAs(withBase(nil), "note-on-stderr")},
 		{name: "error", sc: func(o string) script { return script{Truncate: -1, Error: sp("boom-from-plugin")} }, expect: fails("boom-from-plugin")},
 		{name: "error-with-files-and-warnings", sc: func(o string) script {
-			return script{Truncate: -1, Error: sp("boom-from-plugin"), Warnings: []string{"w"}, Files: []pfile{{Name: abs(o, "x.txt"), Content: "x"}}}
-		}, expect: fails("boom-from-plugin")},
+			return script{Truncate: -1, Error: sp("boom-from-plugin"), Warnings: []string{"warning-next-to-the-error"}, Stderr: "stderr-next-to-the-error\n", Files: []pfile{{Name: abs(o, "x.txt"), Content: "x"}}}
+		}, expect: fails("boom-from-plugin", "warning-next-to-the-error", "stderr-next-to-the-error")},
 		{name: "empty-error-string", sc: func(o string) script { return script{Truncate: -1, Error: sp("")} }, expect: nil},
 		{name: "exit-1-valid-response", sc: func(o string) script { s := valid; s.Exit = 1; return s }, expect: fails("")},
 		{name: "exit-3-no-output", sc: func(o string) script { return script{Truncate: -1, Raw: sp(""), Exit: 3} }, expect: fails("")},
+		// what a failing plugin printed is shown (it is all the user gets to see)
+		{name: "exit-3-with-stderr", sc: func(o string) script {
+			return script{Truncate: -1, Raw: sp("stdout-of-the-failing-plugin"), Stderr: "stderr-of-the-failing-plugin\n", Exit: 3}
+		}, expect: fails("stderr-of-the-failing-plugin", "stdout-of-the-failing-plugin")},
 		{name: "exit-0-no-output", sc: func(o string) script { return script{Truncate: -1, Raw: sp("")} }, expect: fails("")},
 		{name: "exit-0-text-output", sc: func(o string) script { return script{Truncate: -1, Raw: sp("plugin: generating...\ndone\n")} }, expect: fails("")},
 		{name: "exit-0-log-line-before-response", sc: func(o string) script { s := valid; s.Prefix = "log line\n"; return s }, expect: fails("")},
